@@ -279,7 +279,10 @@ def main(tier, seed):
         cfgs = [("AsyncFIFO", 1, 2, 10), ("AsyncFIFO", 2, 4, 9), ("AsyncFIFOBuffered", 1, 3, 9), ("AsyncFIFO", 0, 2, 8), ("AsyncFIFO", 1, 1, 8)]
     else:
         cfgs = [("AsyncFIFO", 1, 2, 16), ("AsyncFIFO", 2, 2, 14), ("AsyncFIFO", 2, 4, 13), ("AsyncFIFOBuffered", 1, 3, 13), ("AsyncFIFOBuffered", 2, 5, 11),
-                ("AsyncFIFO", 0, 2, 12), ("AsyncFIFO", 1, 1, 12), ("AsyncFIFOBuffered", 1, 2, 12)]
+                ("AsyncFIFO", 0, 2, 12), ("AsyncFIFO", 1, 1, 12), ("AsyncFIFOBuffered", 1, 2, 12),
+                # deeper unrollings and deeper queues (each a few minutes of z3)
+                ("AsyncFIFO", 1, 2, 22), ("AsyncFIFO", 2, 4, 18), ("AsyncFIFO", 1, 8, 18), ("AsyncFIFOBuffered", 1, 5, 16), ("AsyncFIFOBuffered", 2, 3, 18),
+                ("AsyncFIFO", 3, 4, 14)]
     jobs = [{"id": f"bmc-{k}-w{w}-d{d}-K{K}", "what": "bmc", "kind": k, "width": w, "depth": d, "K": K} for (k, w, d, K) in cfgs]
     jobs.append({"id": "elab", "what": "elab"})
     results, stats = run.run_jobs(job_fn, jobs)
